@@ -364,46 +364,51 @@ pub struct MutCase {
 
 fn check_mut(c: &MutCase, obs: &mut Obs) -> Result<(), Fail> {
     let b = cborx::write(&c.node);
-    let mut k: KeepRaw<'_, Vec<u64>> = match minicbor::decode(&b) {
-        Ok(k) => k,
-        Err(_) => {
-            obs.discard();
-            return Ok(());
-        }
-    };
-    let mut model: Vec<u64> = (*k).clone();
-    match &c.op {
-        MutR::Push(x) => {
-            k.push(*x);
-            model.push(*x);
-            obs.class("mut:push");
-        }
-        MutR::Overwrite(i, x) => {
-            if model.is_empty() {
+    // once on the wrapper as decoded (borrowing the input) and once on the wrapper detached with to_owned()
+    for owned in [false, true] {
+        let decoded: KeepRaw<'_, Vec<u64>> = match minicbor::decode(&b) {
+            Ok(k) => k,
+            Err(_) => {
                 obs.discard();
                 return Ok(());
             }
-            let idx = pvkit::pick_idx(*i, model.len());
-            k[idx] = *x;
-            model[idx] = *x;
-            obs.class("mut:overwrite");
+        };
+        let mut k: KeepRaw<'_, Vec<u64>> = if owned { decoded.to_owned() } else { decoded };
+        let how = if owned { ":to_owned" } else { "" };
+        let mut model: Vec<u64> = (*k).clone();
+        match &c.op {
+            MutR::Push(x) => {
+                k.push(*x);
+                model.push(*x);
+                obs.class("mut:push");
+            }
+            MutR::Overwrite(i, x) => {
+                if model.is_empty() {
+                    obs.discard();
+                    return Ok(());
+                }
+                let idx = pvkit::pick_idx(*i, model.len());
+                k[idx] = *x;
+                model[idx] = *x;
+                obs.class("mut:overwrite");
+            }
+            MutR::Clear => {
+                k.clear();
+                model.clear();
+                obs.class("mut:clear");
+            }
+            MutR::NoopBorrow => {
+                let _r: &mut Vec<u64> = &mut k;
+                obs.class("mut:noop-borrow");
+            }
         }
-        MutR::Clear => {
-            k.clear();
-            model.clear();
-            obs.class("mut:clear");
-        }
-        MutR::NoopBorrow => {
-            let _r: &mut Vec<u64> = &mut k;
-            obs.class("mut:noop-borrow");
-        }
+        let e = minicbor::to_vec(&k).map_err(|e| Fail { sig: format!("mut{how}:encode-error"), msg: e.to_string() })?;
+        let fresh = minicbor::to_vec(&*k).unwrap();
+        pv_ensure!(e == fresh, format!("mut{how}:stale-raw"), "after {:?} on KeepRaw decoded from {}{}, the wrapper encodes {} but its content encodes {}",
+            c.op, hex::encode(&b), if owned { " and detached with to_owned()" } else { "" }, hex::encode(&e), hex::encode(&fresh));
+        let back: Vec<u64> = minicbor::decode(&e).map_err(|e| Fail { sig: format!("mut{how}:decode-error"), msg: e.to_string() })?;
+        pv_ensure!(back == model, format!("mut{how}:content"), "re-encoding decodes to {:?}, model says {:?}", back, model);
     }
-    let e = minicbor::to_vec(&k).map_err(|e| Fail { sig: "mut:encode-error".into(), msg: e.to_string() })?;
-    let fresh = minicbor::to_vec(&*k).unwrap();
-    pv_ensure!(e == fresh, "mut:stale-raw", "after {:?} on KeepRaw decoded from {}, the wrapper encodes {} but its content encodes {}",
-        c.op, hex::encode(&b), hex::encode(&e), hex::encode(&fresh));
-    let back: Vec<u64> = minicbor::decode(&e).map_err(|e| Fail { sig: "mut:decode-error".into(), msg: e.to_string() })?;
-    pv_ensure!(back == model, "mut:content", "re-encoding decodes to {:?}, model says {:?}", back, model);
     obs.nontrivial_if(!c.node.is_plain());
     Ok(())
 }
